@@ -1604,6 +1604,11 @@ static void compile_expr(CG *cg, ASTNode *node) {
 
     case AST_ARRAY_LITERAL: {
         int count = node->as.array_literal.element_count;
+        /* The element count is a 16-bit operand of ARR_LITERAL: a longer literal would be silently truncated */
+        if (count > 65535) {
+            cg_error(cg, node->line, "array literal with %d elements (at most 65535 are supported)", count);
+            break;
+        }
         /* Push all elements left-to-right */
         for (int i = 0; i < count; i++) {
             compile_expr(cg, node->as.array_literal.elements[i]);
